@@ -113,23 +113,32 @@ func setupC04(rt *rapid.T, node *simNode) *c04State {
 		must(writeDKGResult(ctx, node.DB, es, pos, true))
 		st.HasSuccess = true
 	}
-	// optionally a key is already stored (same bytes as the genuine key, or different bytes)
-	if st.HasSuccess && rapid.IntRange(0, 3).Draw(rt, "storeKey") == 0 {
-		id := c04Identity(flCore, rapid.IntRange(0, 2).Draw(rt, "storedId"))
-		k, err := st.Fix.Real.EpochSecretKey(identitypreimage.IdentityPreimage(id))
-		must(err)
-		kb := k.Marshal()
-		if rapid.Bool().Draw(rt, "storedDifferent") {
-			fk, err := st.Fix.Foreign.EpochSecretKey(identitypreimage.IdentityPreimage(id))
+	// optionally keys are already stored (same bytes as the genuine key, or different bytes)
+	if st.HasSuccess && rapid.IntRange(0, 1).Draw(rt, "storeKey") == 0 {
+		tag := ""
+		for i := 0; i < 3; i++ {
+			if !rapid.Bool().Draw(rt, fmt.Sprintf("storeId%d", i)) {
+				continue
+			}
+			id := c04Identity(flCore, i)
+			k, err := st.Fix.Real.EpochSecretKey(identitypreimage.IdentityPreimage(id))
 			must(err)
-			kb = fk.Marshal()
-			st.Kind += "+stored-different"
-		} else {
-			st.Kind += "+stored-same"
+			kb := k.Marshal()
+			if rapid.IntRange(0, 2).Draw(rt, fmt.Sprintf("storedDifferent%d", i)) == 0 {
+				fk, err := st.Fix.Foreign.EpochSecretKey(identitypreimage.IdentityPreimage(id))
+				must(err)
+				kb = fk.Marshal()
+				if !strings.Contains(tag, "different") {
+					tag += "+stored-different"
+				}
+			} else if !strings.Contains(tag, "same") {
+				tag += "+stored-same"
+			}
+			_, err = q.InsertDecryptionKey(ctx, corekeyper.InsertDecryptionKeyParams{Eon: int64(st.CfgIdx), EpochID: id, DecryptionKey: kb})
+			must(err)
+			st.Stored[string(id)] = kb
 		}
-		_, err = q.InsertDecryptionKey(ctx, corekeyper.InsertDecryptionKeyParams{Eon: int64(st.CfgIdx), EpochID: id, DecryptionKey: kb})
-		must(err)
-		st.Stored[string(id)] = kb
+		st.Kind += tag
 	}
 	return st
 }
@@ -281,6 +290,32 @@ func genC04Message(rt *rapid.T, st *c04State) (topic string, data []byte, desc s
 	swapType := false
 	for k := 0; k < nm; k++ {
 		l := fmt.Sprintf("m%d", k)
+		if !isShares && len(st.Stored) > 0 && rapid.IntRange(0, 2).Draw(rt, l+"orderBias") == 0 {
+			// stored keys take a shortcut in validation: aim order / duplicate mutations at that path
+			kindB := rapid.SampledFrom([]string{"swap", "swap", "dup", "identity"}).Draw(rt, l+"b")
+			muts = append(muts, kindB)
+			switch kindB {
+			case "swap":
+				if len(keysMsg.Keys) >= 2 {
+					i := rapid.IntRange(0, len(keysMsg.Keys)-2).Draw(rt, l+"swi")
+					keysMsg.Keys[i], keysMsg.Keys[i+1] = keysMsg.Keys[i+1], keysMsg.Keys[i]
+					shares.Shares[i], shares.Shares[i+1] = shares.Shares[i+1], shares.Shares[i]
+				}
+			case "dup":
+				if n := len(keysMsg.Keys); n >= 1 && uint64(n) < st.MaxKeys {
+					keysMsg.Keys = append(keysMsg.Keys, keysMsg.Keys[0])
+					shares.Shares = append(shares.Shares, shares.Shares[0])
+				}
+			case "identity":
+				if n := len(keysMsg.Keys); n >= 1 {
+					i := rapid.IntRange(0, n-1).Draw(rt, l+"idi")
+					nid := append([]byte{}, keysMsg.Keys[i].IdentityPreimage...)
+					nid[0] ^= 0x80
+					keysMsg.Keys[i].IdentityPreimage, shares.Shares[i].IdentityPreimage = nid, nid
+				}
+			}
+			continue
+		}
 		kind := rapid.SampledFrom([]string{"instance", "eon", "sender", "sender", "sender", "count0", "countMax1", "identity", "swap", "swap", "swap", "swap", "dup", "blob-other-keyper", "blob-other-identity", "blob-foreign", "blob-trunc", "blob-trunc", "blob-trunc", "blob-infinity", "blob-random", "swap-type", "version", "unknown-any", "trailing"}).Draw(rt, l)
 		muts = append(muts, kind)
 		nItems := len(shares.Shares)
